@@ -340,7 +340,7 @@ func runC11(r *ev.Run, thorough bool) {
 	// every multiple of 64 +-1: a reader with a size-dependent fast path or block loop swallows a short read there
 	st, sl := 1100, 150
 	if thorough {
-		st, sl = 8300, 1100
+		st, sl = 4200, 600 // the per-type work is serial: larger bounds leave one core busy for tens of minutes
 	}
 	var nmid int64
 	parTypes(r, bind.Types, func(t *rm.Type, l *ev.Local) {
@@ -394,7 +394,7 @@ func runC11(r *ev.Run, thorough bool) {
 			return true
 		}
 		valenum.Enum(t, valenum.Opts{K: 1, Canonical: true, SweepText: st, SweepList: sl}, one)
-		valenum.Enum(t, valenum.Opts{K: 1, Canonical: true, Big: true, Combos: thorough}, one)
+		valenum.Enum(t, valenum.Opts{K: 1, Canonical: true, Big: true}, one)
 		atomic.AddInt64(&nmid, n)
 	})
 	r.Set("mid_range_size_cuts", map[string]any{"every_prefixed_text_length_0_to": st, "every_list_length_0_to": sl, "cuts": nmid})
